@@ -10,8 +10,8 @@ Inductive case :=
 
 Definition fuel : nat := Z.to_nat 30000.
 
-Definition gopher_devs := mkDevs false true false false 0.
-Definition with_fault (d : devs) (k : Z) (str : bool) := mkDevs (dv_errlevel d) (dv_localfunc d) (dv_wrap_noprefix d) str k.
+Definition gopher_devs := mkDevs true true false false 0.
+Definition with_fault (d : devs) (k : Z) (str : bool) := mkDevs (dv_handler_err d) (dv_localfunc d) (dv_wrap_noprefix d) str k.
 
 Definition is_skip (o : outcome) := match o with Outcome _ _ => false | _ => true end.
 
